@@ -11,6 +11,7 @@ import sys
 
 wt, name, ids = sys.argv[1], sys.argv[2], sys.argv[3:]
 out = os.path.join(wt, "out")
+HERE = os.path.dirname(os.path.dirname(os.path.abspath(__file__)))   # the /verif tree (or snapshot) whose checks run
 dst = os.path.join("/verif/seeded", name)
 os.makedirs(dst, exist_ok=True)
 env = dict(os.environ, PYTHONPATH=os.path.join(wt, "src"), PYTHONHASHSEED="0")
@@ -37,7 +38,7 @@ meta["confirmed"] = {"demo_exit_with_change": r_with, "demo_exit_without_change"
                      "tests": meta.get("tests", "see agent report")}
 res = {}
 for pid in ids:
-    p = sh(f"./check {pid}", cwd="/verif", env=dict(os.environ, PYDREX_REPO=wt), timeout=3600)
+    p = sh(f"./check {pid}", cwd=HERE, env=dict(os.environ, PYDREX_REPO=wt), timeout=3600)
     lines = [ln for ln in p.stdout.split("\n") if ln.startswith(("VIOLATION", "KNOWN-FINDING"))]
     res[pid] = {"exit": p.returncode, "lines": [ln[:300] for ln in lines if ln.startswith("VIOLATION")],
                 "caught": p.returncode == 1 and any(ln.startswith("VIOLATION") for ln in lines),
